@@ -58,6 +58,19 @@ def build_corpus(tier, rng):
     items.append(("samename", Item("E", [Variant("HTTPServer", "unit"), Variant("HttpServer", "unit"), Variant("Other", "unit")], metas=[EM("sall", "kebab-case")])))
     items.append(("samename", Item("E", [Variant("Crimson", "unit", [], [ser("Red")]), Variant("Red", "unit"), Variant("Blue", "tuple", [Field("u8")], [tos("Red")])])))
     items.append(("samename", Item("E", [Variant("A", "unit", [], [tos("x")]), Variant("B", "unit", [], [tos("x"), DISABLED]), Variant("C", "unit", [], [tos("x")])], metas=[EM("prefix", "p")])))
+    # attributes of OTHER tools on a variant (#[deprecated], #[cfg(all())], #[non_exhaustive], #[doc(hidden)]) filter nothing: the variant
+    # is declared and enabled, so it is counted, named, listed and iterated
+    from vlib.defs import raw
+    foreign = [raw("deprecated"), raw('deprecated(note = "phased out")'), raw("cfg(all())"), raw("non_exhaustive"), raw("doc(hidden)"), raw("allow(dead_code)"),
+               raw("cfg_attr(all(), deprecated)")]
+    for fieldless in (True, False):
+        vs = []
+        for i, fa in enumerate(foreign):
+            kind = "unit" if fieldless or i % 2 == 0 else "tuple"
+            vs.append(Variant("Http%d" % i, kind, [Field("u8")] if kind == "tuple" else [], [fa] + ([ser("h%d" % i)] if i % 3 == 0 else [])))
+            if i % 3 == 1:
+                vs.append(Variant("Plain%d" % i, "unit"))
+        items.append(("foreign-attrs", Item("E", vs)))
     G.resolve_names(ID, [it for _, it in items])
     for fam, it in items:
         fieldless = all(v.kind == "unit" for v in it.variants)
